@@ -93,6 +93,11 @@ def mismatch(lean, py, path=''):
                 if m:
                     return m
             return None
+        if name == 'slice':
+            from pytoniq_core.boc.slice import Slice
+            if not isinstance(py, Slice):
+                return f'{path}: Lean Slice, library {type(py).__name__}'
+            return None if V.cell_json_canon(v) == V.lib_cell_canon(py.to_cell()) else f'{path}: slices differ'
         if name == 'tuple':
             if not isinstance(py, tuple) or len(py) != len(v):
                 return f'{path}: Lean tuple of {len(v)}, library {type(py).__name__}'
